@@ -489,3 +489,39 @@ Theorem C08_never_crashes :
          Collective.cret c sh a g r l <> Collective.Crash.
 Proof. exact @never_crashes. Qed.
 Print Assumptions C08_never_crashes.
+
+Theorem C08_fill_block_spec :
+  forall sh : Collective.shared,
+         Collective.fill_new sh =
+         (if
+           ((0 <? Collective.s_nvars sh)%Z && (0 <? Collective.fill_nvars sh)%Z &&
+            (0 <? Collective.fill_j sh)%Z)%bool
+          then
+           (Collective.S_fillerup_aggregate_SV1, Collective.TFhColl)
+           :: (Collective.S_fillerup_aggregate_WAA1, Collective.TFhColl)
+              :: (Collective.S_fillerup_aggregate_SV2, Collective.TFhColl) :: nil
+          else nil).
+Proof. exact @fill_block_spec. Qed.
+Print Assumptions C08_fill_block_spec.
+
+Theorem C08_fill_no_segment_no_data :
+  forall (np rank : Z) (sh : Collective.shared),
+         (0 <= Collective.fill_old_numrecs sh)%Z ->
+         Collective.fill_j sh = 0%Z -> Collective.fill_buf_len np rank sh = 0%Z.
+Proof. exact @fill_no_segment_no_data. Qed.
+Print Assumptions C08_fill_no_segment_no_data.
+
+Theorem C08_fill_exit_on_own_amount_would_mismatch :
+  exists (np : Z) (sh : Collective.shared) (r1 r2 : Z),
+           (0 <= r1 < np)%Z /\
+           (0 <= r2 < np)%Z /\
+           (0 < Collective.fill_j sh)%Z /\
+           Collective.fill_buf_len np r1 sh = 0%Z /\ (0 < Collective.fill_buf_len np r2 sh)%Z.
+Proof. exact @fill_exit_on_own_amount_would_mismatch. Qed.
+Print Assumptions C08_fill_exit_on_own_amount_would_mismatch.
+
+Theorem C08_match_enddef_fill :
+  forall (c : Collective.cfg) (sh : Collective.shared) (ls : list Collective.local),
+         ranks_ok Collective.A_enddef ls -> all_match (traces c sh Collective.A_enddef ls).
+Proof. exact @match_enddef_fill. Qed.
+Print Assumptions C08_match_enddef_fill.
